@@ -121,10 +121,10 @@ prop('C15',
          dict(harness='c15_response_step', covers=['c15x.find-node', 'c15x.get-record', 'c15x.get-providers'], min_paths=1000, split=6,
               params={'quick': {'active_peers': 3}, 'thorough': {'active_peers': 4}}, conform={'quick': 100, 'thorough': 1000}, nvals=24),
          dict(harness='c15_get_record', covers=['c15r.send', 'c15r.response', 'c15r.peer-failure', 'c15r.succeeded', 'c15r.failed', 'c15r.wait'],
-              min_paths=1000, split={'quick': 8, 'thorough': 9}, params={'quick': {'steps': 3}, 'thorough': {'steps': 5}},
+              min_paths=1000, split={'quick': 8, 'thorough': 9}, params={'quick': {'steps': 3}, 'thorough': {'steps': 4}},
               conform={'quick': 60, 'thorough': 500}, nvals=40),
          dict(harness='c15_get_providers', covers=['c15p.send', 'c15p.response', 'c15p.peer-failure', 'c15p.succeeded', 'c15p.failed', 'c15p.wait'],
-              min_paths=1000, split={'quick': 8, 'thorough': 9}, params={'quick': {'steps': 3}, 'thorough': {'steps': 5}},
+              min_paths=1000, split={'quick': 8, 'thorough': 9}, params={'quick': {'steps': 3}, 'thorough': {'steps': 4}},
               conform={'quick': 60, 'thorough': 500}, nvals=40),
      ],
      bounds={'peers': 3, 'steps': 'find_node: quick 4, thorough 5; get_record/get_providers: quick 3, thorough 5',
@@ -153,7 +153,7 @@ prop('C17',
      explanation='Differential bounded model checking of the real MemoryStore against a reference store written in the harness.',
      units=[
          dict(harness='c17_store_records', covers=['c17.put', 'c17.get'], min_paths=500, split=6,
-              params={'quick': {'steps': 3}, 'thorough': {'steps': 4}}, conform={'quick': 60, 'thorough': 500}, nvals=30),
+              params={'quick': {'steps': 3}, 'thorough': {'steps': 3}}, conform={'quick': 60, 'thorough': 500}, nvals=30),
          dict(harness='c17_store_providers', covers=['c17p.put', 'c17p.put-local', 'c17p.get', 'c17p.expire'], min_paths=1000, split=5,
               params={'quick': {'steps': 2}, 'thorough': {'steps': 3, 'all_address_counts': 1}}, conform={'quick': 60, 'thorough': 500}, nvals=30),
          dict(harness='c17_store_providers', name='c17_store_providers_onestep',
@@ -234,7 +234,7 @@ prop('C14',
                  'closest() lookups, and a full 20-peer bucket under re-adds, connections and overflow.',
      units=[
          dict(harness='c14_table_ops', covers=['c14.add', 'c14.established', 'c14.dial-failure', 'c14.add-local', 'c14.closest'], min_paths=500,
-              split={'quick': 3, 'thorough': 4}, params={'quick': {'steps': 2}, 'thorough': {'steps': 3}}, conform={'quick': 40, 'thorough': 300}, nvals=16,
+              split={'quick': 3, 'thorough': 3}, params={'quick': {'steps': 2}, 'thorough': {'steps': 2}}, conform={'quick': 40, 'thorough': 300}, nvals=16,
               time_cap={'quick': 1500, 'thorough': 14000}),
          dict(harness='c14_bucket_full', covers=['c14.full.readd', 'c14.full.connect', 'c14.full.displace', 'c14.full.noslot'], min_paths=100,
               split={'quick': 3, 'thorough': 4}, params={'quick': {'steps': 2}, 'thorough': {'steps': 3}}, conform={'quick': 40, 'thorough': 300}, nvals=16,
@@ -375,7 +375,7 @@ prop('C11',
      units=[
          dict(harness='c11_notification_protocol', covers=['c11.connected', 'c11.disconnected', 'c11.user.open', 'c11.user.close', 'c11.outbound.opened', 'c11.outbound.failed', 'c11.inbound.opened',
                                                            'c11.event.validate', 'c11.user.accept', 'c11.user.reject', 'c11.event.open-failure', 'c11.probe'],
-              min_paths=1000, split={'quick': 5, 'thorough': 7}, params={'quick': {'steps': 4, 'io_budget': 0, 'fifo_futures': 1}, 'thorough': {'steps': 6, 'io_budget': 0, 'fifo_futures': 1}},
+              min_paths=1000, split={'quick': 5, 'thorough': 7}, params={'quick': {'steps': 4, 'io_budget': 0, 'fifo_futures': 1}, 'thorough': {'steps': 5, 'io_budget': 0, 'fifo_futures': 1}},
               conform={'quick': 100, 'thorough': 1000}, nvals=40),
          dict(harness='c11_notification_protocol', name='c11_notification_open', covers=['c11.event.opened', 'c11.event.closed', 'c11.outbound.opened', 'c11.inbound.opened', 'c11.event.notification'],
               min_paths=100, split={'quick': 4, 'thorough': 6}, params={'quick': {'steps': 3, 'warm': 4, 'io_budget': 0, 'fifo_futures': 1}, 'thorough': {'steps': 4, 'warm': 4, 'io_budget': 0, 'fifo_futures': 1}},
@@ -387,7 +387,7 @@ prop('C11',
      assumptions=['one remote peer, one connection at a time; the remote is scripted through its substreams (sends its handshake and stays, or closes)',
                   'timers (10 s negotiation / open time-outs) never fire within the explored window',
                   'tokio mpsc / oneshot models; FuturesUnordered serves ready futures in the real implementation\'s FIFO order; the biased select! polls its branches in source order (as the real macro does)'],
-     bounds={'events': 'from a fresh protocol: quick 4, thorough 6; after a forced opening sequence (connect, user open, remote answers the handshake, remote opens its substream): quick 3, thorough 4; of connect / disconnect / user open / user close / answer the pending substream request (fails, remote handshakes, remote closes) / remote opens an inbound substream (closes at once / handshakes and stays / handshakes, sends one notification and closes or stays) / user validation answer / poll stream tasks; then the connection is lost and everything is polled',
+     bounds={'events': 'from a fresh protocol: quick 4, thorough 5; after a forced opening sequence (connect, user open, remote answers the handshake, remote opens its substream): quick 3, thorough 4; of connect / disconnect / user open / user close / answer the pending substream request (fails, remote handshakes, remote closes) / remote opens an inbound substream (closes at once / handshakes and stays / handshakes, sends one notification and closes or stays) / user validation answer / poll stream tasks; then the connection is lost and everything is polled',
              'carrier': 'ideal (io_budget 0): chunking and Pending of the substream carriers are exercised by C04/C12'},
      outside=['two real endpoints talking to each other (the remote is scripted)', 'several peers and simultaneous connections', 'time-outs', 'notification traffic beyond the single notification the scripted remote may send (C12 covers the stream task)'],
      )
@@ -401,7 +401,7 @@ prop('C12',
          dict(harness='c12_notification_stream', covers=['c12.sync.accepted', 'c12.sync.clogged', 'c12.async.accepted', 'c12.async.waits', 'c12.async.accepted-after-waiting',
                                                          'c12.user.received', 'c12.task-finished', 'c12.closed', 'c12.open', 'c12.shutdown-requested'],
               min_paths=1000, split={'quick': 6, 'thorough': 7},
-              params={'quick': {'steps': 3, 'write_budget': 1, 'read_budget': 1}, 'thorough': {'steps': 4, 'write_budget': 2, 'read_budget': 2}},
+              params={'quick': {'steps': 3, 'write_budget': 1, 'read_budget': 1}, 'thorough': {'steps': 4, 'write_budget': 1, 'read_budget': 2}},
               conform={'quick': 100, 'thorough': 1000}, nvals=40),
          dict(harness='c12_notification_stream', name='c12_notification_stream_big', covers=['c12.sync.accepted', 'c12.async.accepted', 'c12.open'],
               min_paths=100, split={'quick': 5, 'thorough': 6},
